@@ -14,7 +14,10 @@ use std::fmt::{self, Display, Formatter};
 
 use async_graphql_value::Name;
 pub use parse::{parse_query, parse_schema};
-use pest::{RuleType, error::LineColLocation};
+use pest::{
+    RuleType,
+    error::{InputLocation, LineColLocation},
+};
 pub use pos::{Pos, Positioned};
 use serde::{Serialize, Serializer};
 
@@ -136,6 +139,24 @@ impl Display for Error {
 }
 
 impl std::error::Error for Error {}
+
+impl Error {
+    /// Convert a parser error, computing its positions from the byte offsets it carries so that
+    /// every kind of line terminator is counted the same way as for syntax-tree positions.
+    pub(crate) fn from_pest<R: RuleType>(err: pest::error::Error<R>, input: &str) -> Self {
+        let (start, end) = match err.location {
+            InputLocation::Pos(at) => (pos::pos_at(input, at), None),
+            InputLocation::Span((start, end)) => {
+                (pos::pos_at(input, start), Some(pos::pos_at(input, end)))
+            }
+        };
+        Error::Syntax {
+            message: err.to_string(),
+            start,
+            end,
+        }
+    }
+}
 
 impl<R: RuleType> From<pest::error::Error<R>> for Error {
     fn from(err: pest::error::Error<R>) -> Self {
